@@ -102,6 +102,7 @@ def main():
     ap.add_argument("--jobs", type=int, default=4)
     ap.add_argument("--workers", type=int, default=4)
     ap.add_argument("--tier")
+    ap.add_argument("--missing", action="store_true", help="only entries that have no result recorded yet")
     args = ap.parse_args()
     muts = []
     if args.seeded:
@@ -120,6 +121,8 @@ def main():
         muts = [m for m in muts if m["prop"] == args.prop]
     resfile = ROOT / "selftest" / ("results_seeded.json" if args.seeded else "results.json")
     results = json.loads(resfile.read_text()) if resfile.exists() else {}
+    if args.missing:
+        muts = [m for m in muts if m["name"] not in results]
     with cf.ThreadPoolExecutor(args.jobs) as ex:
         for name, res in ex.map(lambda m: one(m, args), muts):
             results[name] = res
